@@ -339,15 +339,19 @@ class MessagePackRpc(MessagePackDocument):
         if out_type is None:
             return
 
-        out_type_info = out_type._type_info
-
-        # instantiate the result message
-        out_instance = out_type()
-
         # assign raw result to its wrapper, result_message
-        for i, (k, v) in enumerate(out_type_info.items()):
-            attrs = self.get_cls_attrs(v)
-            out_instance._safe_set(k, ctx.out_object[i], v, attrs)
+        if message is self.RESPONSE and ctx.descriptor.is_out_bare():
+            out_instance, = ctx.out_object
+
+        else:
+            out_type_info = out_type._type_info
+
+            # instantiate the result message
+            out_instance = out_type()
+
+            for i, (k, v) in enumerate(out_type_info.items()):
+                attrs = self.get_cls_attrs(v)
+                out_instance._safe_set(k, ctx.out_object[i], v, attrs)
 
         # transform the results into a dict:
         if out_type.Attributes.max_occurs > 1:
